@@ -114,7 +114,15 @@ pub fn check(case: &Case) -> Outcome {
 }
 
 fn strategy() -> BoxedStrategy<Case> {
-    (router_case_strategy(RuleOpts::TIES, 10, 4, 6), any::<u64>()).prop_map(|(router, perm_seed)| Case { router, perm_seed }).boxed()
+    (router_case_strategy(RuleOpts::TIES, 10, 4, 6), any::<u64>(), prop::option::weighted(0.5, 0usize..4))
+        .prop_map(|(mut router, perm_seed, tricky)| {
+            // half of the cases use ids that are integers written in several ways mixed with text ids
+            if let Some(off) = tricky {
+                rename_tricky(&mut router.rules, off);
+            }
+            Case { router, perm_seed }
+        })
+        .boxed()
 }
 
 pub fn run(ctx: &Ctx) -> Report {
